@@ -46,18 +46,23 @@ type Obs struct {
 	TClose map[string]int        `json:"tclose"`
 	NewW   map[string][][]string `json:"neww"`
 	HMeta  []string              `json:"hmeta"`
+	HCtx   bool                  `json:"hctx"`
+	Unb    bool                  `json:"unb"`
 }
 
-// Line is one trace line.
+// Line is one trace line. Where (innermost drpc frame of every parked goroutine) is diagnostic only:
+// it is not part of the observation the specification is compared with.
 type Line struct {
-	Stim Stim `json:"stim"`
-	Obs  Obs  `json:"obs"`
+	Stim  Stim              `json:"stim"`
+	Obs   Obs               `json:"obs"`
+	Where map[string]string `json:"-"`
 }
 
 // Config selects the variant of the world.
 type Config struct {
 	Small, Manual, Soft bool
 	GateU               bool
+	Points              []string // armed model points: "conn.created", "manager.newstream.beforeset"
 	Threads             []string // client threads
 }
 
@@ -87,6 +92,10 @@ type World struct {
 	mu     sync.Mutex
 
 	svGoidSeen int64
+	LastWhere  map[string]string
+	Lines      []Line
+	Quiet      bool
+	scancelled bool
 }
 
 // Pad makes a payload that carries tag in every 16-byte frame.
@@ -236,6 +245,15 @@ func New(cfg Config) *World {
 	for _, t := range cfg.Threads {
 		w.D.Thread(t)
 	}
+	real := []string{}
+	for _, p := range cfg.Points {
+		if p == "conn.created" {
+			real = append(real, "conn.invoke.created", "conn.newstream.created")
+		} else {
+			real = append(real, p)
+		}
+	}
+	w.D.ArmPoints(real...)
 	w.D.Go("sv", func() string { return ErrClass(srv.ServeOne(sctx, w.SP)) })
 	w.Conn = drpcconn.NewWithOptions(w.CP, drpcconn.Options{Manager: mopts})
 	return w
@@ -390,6 +408,10 @@ func (w *World) Apply(st Stim) bool {
 		w.rpcs[st.R-1].cancel()
 		return true
 	case "cancelsrv":
+		if w.scancelled {
+			return false
+		}
+		w.scancelled = true
 		w.mark()
 		w.scan()
 		return true
@@ -401,12 +423,20 @@ func (w *World) Apply(st Stim) bool {
 		w.mark()
 		p.Fail()
 		return true
-	case "relu":
-		if w.Enc.U.Waiting() == 0 {
+	case "point":
+		snap, _ := w.D.Quiesce()
+		if wh, ok := snap.Threads[st.T]; !ok || wh.State != "gate:gate" {
 			return false
 		}
 		w.mark()
-		return w.Enc.U.Release()
+		return w.D.ReleasePoint(st.T)
+	case "relu":
+		id := w.D.Thread(st.T).GoID()
+		if id == 0 || !w.Enc.U.ReleaseWho(id) {
+			return false
+		}
+		w.mark()
+		return true
 	}
 	return false
 }
@@ -440,6 +470,18 @@ func frameStr(f dir.WFrame) string {
 // Observe brings the process to quiescence and projects its state.
 func (w *World) Observe() (Obs, bool) {
 	snap, ok := w.D.Quiesce()
+	w.LastWhere = map[string]string{}
+	short := func(f string) string {
+		if i := strings.LastIndex(f, "/"); i >= 0 {
+			f = f[i+1:]
+		}
+		return f
+	}
+	for n, wh := range snap.Threads {
+		if wh.State == "blk" {
+			w.LastWhere[n] = short(wh.Frame)
+		}
+	}
 	// a transport closed by its endpoint makes the peer's reader see EOF after what was already written
 	for _, e := range []string{"cli", "srv"} {
 		if c, _, _, _, _ := w.pipe(e).Stats(); c > 0 && !w.eofQ[e] {
@@ -502,6 +544,8 @@ func (w *World) Observe() (Obs, bool) {
 			st = "tw"
 		case g.Has("dir.(*GatedPipe).Read"):
 			st = "tr"
+		default:
+			w.LastWhere[role+ep] = short(g.Innermost("storj.io/drpc/"))
 		}
 		o.Lib[role+ep] = st
 	}
@@ -544,32 +588,108 @@ func (w *World) Observe() (Obs, bool) {
 			o.HMeta[i] = v
 		}
 	}
+	if w.H.cur != nil {
+		select {
+		case <-w.H.cur.Context().Done():
+			o.HCtx = true
+		default:
+		}
+	}
 	w.H.mu.Unlock()
+	select {
+	case <-w.Conn.Unblocked():
+		o.Unb = true
+	default:
+	}
 	return o, ok
+}
+
+// Begin records the reset line.
+func (w *World) Begin() {
+	o, ok := w.Observe()
+	w.Quiet = ok
+	w.Lines = append(w.Lines, Line{Stim: Stim{K: "reset"}, Obs: o, Where: w.LastWhere})
+}
+
+// Step applies one stimulus (if applicable) and records the observation; it reports whether it was applied.
+func (w *World) Step(st Stim) bool {
+	if !w.Quiet || !w.Apply(st) {
+		return false
+	}
+	o, ok := w.Observe()
+	w.Quiet = w.Quiet && ok
+	w.Lines = append(w.Lines, Line{Stim: st, Obs: o, Where: w.LastWhere})
+	return true
+}
+
+// Last returns the latest observation.
+func (w *World) Last() Obs { return w.Lines[len(w.Lines)-1].Obs }
+
+// FreeThread returns a client thread that is not inside a call ("" if none).
+func (w *World) FreeThread() string {
+	for _, t := range w.Cfg.Threads {
+		if !w.D.Thread(t).Busy() {
+			return t
+		}
+	}
+	return ""
+}
+
+// NRPC is the number of client RPCs begun.
+func (w *World) NRPC() int { return len(w.rpcs) }
+
+// HasStream reports whether RPC r returned a stream handle.
+func (w *World) HasStream(r int) bool {
+	if r < 1 || r > len(w.rpcs) {
+		return false
+	}
+	w.mu.Lock()
+	defer w.mu.Unlock()
+	return w.rpcs[r-1].stream != nil
+}
+
+// Flow lets the transport move: it completes parked writes and delivers queued units until nothing is
+// pending; when the handler is parked at its gate it performs hpolicy's next action ("" = leave it).
+// It returns the number of stimuli applied.
+func (w *World) Flow(max int, hpolicy func(w *World) string) int {
+	n := 0
+	for n < max && w.Quiet {
+		switch {
+		case w.CP.WritePending():
+			w.Step(Stim{K: "relw", E: "cli", How: "ok"})
+		case w.SP.WritePending():
+			w.Step(Stim{K: "relw", E: "srv", How: "ok"})
+		case w.SP.ReadPending() && len(w.units["srv"]) > 0:
+			w.Step(Stim{K: "deliver", E: "srv"})
+		case w.CP.ReadPending() && len(w.units["cli"]) > 0:
+			w.Step(Stim{K: "deliver", E: "cli"})
+		default:
+			a := ""
+			if hpolicy != nil && strings.HasPrefix(w.Last().App["sv"], "h:") {
+				a = hpolicy(w)
+			}
+			if a == "" || !w.Step(Stim{K: "hstep", A: a}) {
+				return n
+			}
+		}
+		n++
+	}
+	return n
 }
 
 // Run executes a stimulus list and returns the recorded lines.
 func (w *World) Run(stims []Stim) (lines []Line, quiet bool) {
-	o, ok := w.Observe()
-	quiet = ok
-	lines = append(lines, Line{Stim: Stim{K: "reset"}, Obs: o})
+	w.Begin()
 	for _, st := range stims {
-		if !quiet {
-			break
-		}
-		if !w.Apply(st) {
-			continue
-		}
-		o, ok := w.Observe()
-		quiet = quiet && ok
-		lines = append(lines, Line{Stim: st, Obs: o})
+		w.Step(st)
 	}
-	return lines, quiet
+	return w.Lines, w.Quiet
 }
 
 // Cleanup tears the world down so that no goroutine of the run survives. It reports whether it succeeded.
 func (w *World) Cleanup() bool {
 	w.Enc.ArmU.Store(false)
+	w.D.DisarmPoints()
 	w.CP.AutoW, w.SP.AutoW = true, true
 	for i := 0; i < 100; i++ {
 		snap, _ := w.D.Quiesce()
